@@ -133,6 +133,21 @@ type verifC02Reporter struct {
 	roots map[string]bool
 }
 
+// verifC02BaseDivergence lists tolerated root causes after which the BASE state of the two servers differs: whatever
+// is applied afterwards runs on different states (e.g. a check write that is a no-op on one server and a change on
+// the other), so the rest of such a case is not compared.
+var verifC02BaseDivergence = []string{"C02/table=checks/field=ServiceTags"}
+
+func (r *verifC02Reporter) diverged() bool {
+	for _, k := range verifC02BaseDivergence {
+		if r.roots[k] {
+			r.c.Label("rest-of-case-skipped-after-known-base-divergence")
+			return true
+		}
+	}
+	return false
+}
+
 func (r *verifC02Reporter) report(key, format string, args ...interface{}) {
 	rec := verifkit.For("C02")
 	for _, d := range verifC02Downstream {
@@ -516,6 +531,9 @@ func verifC02Run(f verifkit.F, c *verifkit.Case, cov *verifCoverage, plan *vs.FC
 			c.Violation(f, "C02/store-not-swapped", "after Restore FSM.State() still returns the old store")
 		}
 		verifC02Compare(rp, fmt.Sprintf("right after restoring the snapshot taken at entry %d of %d", cuts[ci], n), points[cuts[ci]], verifC02Observe(y))
+		if rp.diverged() {
+			return
+		}
 		// round-trip idempotence: persist(restore(s)) has the same records as s
 		again := verifPersist(f, y)
 		ra, errA := verifSnapshotRecords(snapBytes)
